@@ -99,14 +99,18 @@ func (f *FeedbackAdapter) unpackRunLengthChunk(
 			ssrc:           0,
 			sequenceNumber: i,
 		}
+		received := chunk.PacketStatusSymbol != rtcp.TypeTCCPacketNotReceived
+		if received {
+			// the delta belongs to this sequence number whether or not the packet is still in the history
+			if len(deltas)-1 < deltaIndex {
+				return deltaIndex, refTime, result, errInvalidFeedback
+			}
+			refTime = refTime.Add(time.Duration(deltas[deltaIndex].Delta) * time.Microsecond)
+			deltaIndex++
+		}
 		if ack, ok := f.history.get(key); ok {
-			if chunk.PacketStatusSymbol != rtcp.TypeTCCPacketNotReceived {
-				if len(deltas)-1 < deltaIndex {
-					return deltaIndex, refTime, result, errInvalidFeedback
-				}
-				refTime = refTime.Add(time.Duration(deltas[deltaIndex].Delta) * time.Microsecond)
+			if received {
 				ack.Arrival = refTime
-				deltaIndex++
 			}
 			result[resultIndex] = ack
 		}
@@ -127,14 +131,18 @@ func (f *FeedbackAdapter) unpackStatusVectorChunk(
 			ssrc:           0,
 			sequenceNumber: start + uint16(i), //nolint:gosec // G115
 		}
+		received := symbol != rtcp.TypeTCCPacketNotReceived
+		if received {
+			// the delta belongs to this sequence number whether or not the packet is still in the history
+			if len(deltas)-1 < deltaIndex {
+				return deltaIndex, refTime, result, errInvalidFeedback
+			}
+			refTime = refTime.Add(time.Duration(deltas[deltaIndex].Delta) * time.Microsecond)
+			deltaIndex++
+		}
 		if ack, ok := f.history.get(key); ok {
-			if symbol != rtcp.TypeTCCPacketNotReceived {
-				if len(deltas)-1 < deltaIndex {
-					return deltaIndex, refTime, result, errInvalidFeedback
-				}
-				refTime = refTime.Add(time.Duration(deltas[deltaIndex].Delta) * time.Microsecond)
+			if received {
 				ack.Arrival = refTime
-				deltaIndex++
 			}
 			result[resultIndex] = ack
 		}
